@@ -56,6 +56,21 @@ def generate(rng: random.Random, tier: str):
                 else:
                     yield markop_case(fam, doc, a, c, False, None, None)
             for _ in range(6 if quick else 25):
+                md = S.marky_doc(rng, g)
+                a, c = S.rand_range(rng, md)
+                if rng.random() < 0.5:
+                    a, c = 0, md.content.size
+                m = S.rand_mark(rng, sc)
+                r = rng.random()
+                if r < 0.5:
+                    yield markop_case(fam, md, a, c, True, m, None)
+                elif r < 0.7:
+                    yield markop_case(fam, md, a, c, False, m, None)
+                elif r < 0.9:
+                    yield markop_case(fam, md, a, c, False, None, m.type)
+                else:
+                    yield markop_case(fam, md, a, c, False, None, None)
+            for _ in range(6 if quick else 25):
                 a, c = S.rand_range(rng, doc)
                 m = S.rand_mark(rng, sc)
                 st = (AddMarkStep if rng.random() < 0.5 else RemoveMarkStep)(a, c, m)
